@@ -517,7 +517,11 @@ func c18concurrent(env *core.Env, n int) core.CaseResult {
 					for i := 0; i < rounds; i++ {
 						ka, kb := fmt.Sprintf("p%da", plans[w].pair[i]), fmt.Sprintf("p%db", plans[w].pair[i])
 						val := fmt.Sprintf("w%d.%d", w, i)
-						t, err := store.Transaction(keyvalue.TransactionOptions{Mode: keyvalue.TransactionReadWrite})
+						mode := keyvalue.TransactionReadWrite
+						if plans[w].kind[i] == 0 {
+							mode = keyvalue.TransactionReadOnly // what the FS layer's own look-ups use
+						}
+						t, err := store.Transaction(keyvalue.TransactionOptions{Mode: mode})
 						if err != nil {
 							continue
 						}
@@ -540,7 +544,9 @@ func c18concurrent(env *core.Env, n int) core.CaseResult {
 							}
 						case 2: // writer
 							t.Set(ka, recordOf(val), blob.NewBytes([]byte(val)))
-							runtime.Gosched()
+							for y := 0; y < 1+i%4; y++ {
+								runtime.Gosched() // widen the window between the two Sets
+							}
 							t.Set(kb, recordOf(val), blob.NewBytes([]byte(val)))
 							_, _ = t.Commit(context.Background())
 							mu.Lock()
